@@ -377,7 +377,8 @@ V_Interp ==
 (* Calls.  Arguments are already evaluated (left to right, each once); the *)
 (* callee was evaluated after them (Decision_ArgsBeforeCallee).            *)
 
-ThisVar == [t |-> "var", loc |-> Loc0, name |-> N_this]
+\* the receiver binding is positioned at the call
+ThisVar(loc) == [t |-> "var", loc |-> loc, name |-> N_this]
 
 CallBuiltin(e, fv, args) ==
     LET name == fv.v.name
@@ -421,7 +422,7 @@ CallUser(e, fv, args) ==
                       [p |-> fn.params[i],
                        s |-> IF fn.collect /\ i = np THEN Slot(VList(restId)) ELSE args[i]]]
           binds2 == IF fv.src.k # "none"
-                    THEN Append(binds, [p |-> ThisVar, s |-> Slot(fv.src)])
+                    THEN Append(binds, [p |-> ThisVar(e.loc), s |-> Slot(fv.src)])
                     ELSE binds
           sid == NewId(scopes)
           frame == [f |-> "call", fn |-> FnOfName(fn.name), loc |-> e.loc, env |-> env]
